@@ -438,9 +438,10 @@ int main(int argc, char **argv) {
     opt.exec_timeout = 60.;
     double remaining = A.deadline - R.elapsed();
     double wsum = 0.;
+    auto weight = [](const Job &j) { return j.prune && j.bound >= 3 ? 60. : j.bound >= 2 ? 12. : 1.; };
     for (size_t k = ij; k < jobs.size(); ++k)
-      wsum += jobs[k].bound >= 2 ? 12. : 1.;
-    opt.deadline = std::max(2., remaining * (J.bound >= 2 ? 12. : 1.) / wsum);
+      wsum += weight(jobs[k]);
+    opt.deadline = std::max(2., remaining * weight(J) / wsum);
     // a configuration whose default schedule already fails is not explored further
     if (d1.verdict != e1::V_OK || !d1.violations.empty())
       opt.max_bound = 0;
